@@ -16,7 +16,9 @@ package main
 
 import (
 	"bytes"
+	"context"
 	"fmt"
+	"io"
 	"os"
 	"path/filepath"
 	"runtime"
@@ -49,9 +51,33 @@ func c01Parse(src string) (*parser.Program, error) {
 	return parser.ParseProgram([]byte(src), nil)
 }
 
-func c01RunProg(prog *parser.Program, input string) vh.RunResult {
-	cfg := &interp.Config{Stdin: strings.NewReader(input), Args: nil}
-	return vh.ExecProg(prog, cfg)
+// c01RunProg runs the real interpreter with a deadline: with a mutated compiler or VM a generated program may loop for ever;
+// that must show up as a failing case ("timeout"), not as a hanging harness.
+func c01RunProg(prog *parser.Program, input string) (res vh.RunResult) {
+	var out bytes.Buffer
+	cfg := &interp.Config{Stdin: strings.NewReader(input), Output: &out, Error: io.Discard, Environ: []string{}}
+	defer func() {
+		if r := recover(); r != nil {
+			res.Panic = fmt.Sprint(r)
+			res.Out = out.String()
+		}
+	}()
+	p, err := interp.New(prog)
+	if err != nil {
+		return vh.RunResult{Err: "new: " + err.Error()}
+	}
+	ctx, cancel := context.WithTimeout(context.Background(), 5*time.Second)
+	defer cancel()
+	status, err := p.ExecuteContext(ctx, cfg)
+	res.Out, res.Status = out.String(), status
+	if err != nil {
+		res.Err = err.Error()
+		if ctx.Err() != nil {
+			res.Err = "TIMEOUT after 5s"
+			res.Out = ""
+		}
+	}
+	return res
 }
 
 func c01Canon(r vh.RunResult) string {
@@ -123,7 +149,7 @@ func runC01(c *vh.Ctx) {
 	pairs = append(pairs, c01Concat(c)...)
 	pairs = append(pairs, c01Shortcuts()...)
 	nDirected := len(pairs)
-	rnd := c01RandomPairs(c, c.N(1200, 40000))
+	rnd := c01RandomPairs(c, c.N(1200, 12000))
 	pairs = append(pairs, rnd...)
 	c.Note(fmt.Sprintf("directed pairs %d, random pairs %d", nDirected, len(rnd)))
 
